@@ -243,7 +243,36 @@ class ScriptGen:
             ti[nm] = self.g.rand_type()
         return ti
 
+    def do_subst_type_svar_only(self):
+        """A sequent with hypotheses whose schematic type variable occurs ONLY in the types of schematic term
+        variables (no Var, Const or binder carries it), e.g. ?p ?x with ?p :: ?'a => bool: type instantiation has to
+        reach those hypotheses as well."""
+        sa = STVar(self.r.choice(['a', 'b']))
+        p = SVar('p', TFun(sa, BoolType))
+        x = SVar('x', sa)
+        q = SVar('q', TFun(sa, sa, BoolType))
+        hyp = self.r.choice([p(x), q(x, x), p(SVar('y', sa))])
+        th = self.record('assume', hyp, [], False)
+        if th is None:
+            return
+        if self.r.random() < 0.5:
+            other = self.pick()
+            if other is not None:
+                imp = self.record('assume', Implies(hyp, other.prop), [], False)
+                if imp is not None:
+                    th2 = self.record('implies_elim', None, [imp, th], False)
+                    th = th2 if th2 is not None else th
+        ti = TyInst()
+        ti[sa.name] = self.g.rand_type(fun_ok=False)
+        th = self.record('subst_type', ti, [th], False)
+        if th is not None and self.r.random() < 0.5:
+            # what an unsound result would be used for: generalise the (now different) variable of the conclusion
+            for v in th.prop.get_svars()[:1]:
+                self.record('forall_intr', v, [th], False)
+
     def do_subst_type(self, near):
+        if not near and self.r.random() < 0.3:
+            return self.do_subst_type_svar_only()
         th = self.pick(lambda t: any(h.get_stvars() for h in list(t.hyps) + [t.prop])) if self.r.random() < 0.7 else self.pick()
         if th is None:
             t = self.bool_term(2)
